@@ -452,14 +452,23 @@ def one_phase(rec, r, o, blocks, bsv, clause, concretise, notes):
     fi = u.fn_by_cname[b.name]
     cfile, hname, tape, inputs = replay_harness(bsv, r, blocks, concretise)
     base = r.base + ('.replay' if concretise else '.replayA')
-    rc, out, err, dt = bsv.sh(['goto-cc', '--function', hname, '-DBS_CANARY()=', '-DBS_CAP=%dUL' % RCAP, '-o', base + '.a.gb', cfile], 120)
+    defs = ['-D' + d for d in getattr(b, 'defines', [])]
+    rc, out, err, dt = bsv.sh(['goto-cc', '--function', hname, '-DBS_CANARY()=', '-DBS_CAP=%dUL' % RCAP] + defs + ['-o', base + '.a.gb', cfile], 120)
     if rc != 0:
         notes.append('replay harness does not build: ' + (err or out)[-500:])
         return False
     cmd = ['goto-instrument', '--dfcc', hname, '--enforce-contract', b.name]
     for g in b.replace:
         cmd += ['--replace-call-with-contract', g]
-    cmd += ['--apply-loop-contracts', base + '.a.gb', base + '.b.gb']
+    ctext = open(cfile).read()
+    for shim in bsv.SHIM_CONTRACTS:
+        if re.search(r'\b%s\(' % shim, ctext[ctext.index('rt/harness.h'):]):
+            cmd += ['--replace-call-with-contract', shim]
+    try:
+        src_gb, lf = bsv.prepare_loops(base + '.a.gb', base + '.u.gb', ctext, cfile, b)
+    except bsv.Undecided:
+        src_gb, lf = base + '.a.gb', []
+    cmd += lf + [src_gb, base + '.b.gb']
     rc, out, err, dt = bsv.sh(cmd, 300)
     if rc != 0:
         notes.append('replay harness does not instrument')
